@@ -152,6 +152,8 @@ def pKOp : P KOp := do
     pure (.update k s v a)
   | "ker" => do let k ← P.nat; pure (.updateKernel k)
   | "vp" => do let l ← P.list P.rat; pure (.valuesParam l)
+  | "pdef" => pure .paramsDefaultDofs
+  | "pker" => pure .paramsKernelDof
   | _ => failure
 
 open Darsia.Kern in
